@@ -5,7 +5,7 @@ round-trip, transport invariants over arbitrary step lists, ? chains of any leng
 classification; the defects of the pinned code as `_refuted` witnesses).
 Tie: three families of skeleton programs - (A) a value is constructed, transported (declaration from
 variable/call, assignment, parameter passing, return) and consumed by match / .variant / .value;
-(Q) chains of functions propagating with `?`; (T) core expressions under try/checked in four statement
+(Q) chains of functions propagating with `?`; (T) core expressions under try/checked in six statement
 contexts - are printed as Cb programs and run on the real `main`; stdout transcript and error class must
 equal the extracted Mech model for EVERY program (conforming or not); Mech vs Spec classifies.
 classify_runtime_error/build_result_err are additionally compared byte for byte on random messages
@@ -31,8 +31,9 @@ META = {
             "iff non-empty), evaluate_error_propagation and classify_runtime_error / evaluate_try_like_expression: the match loop "
             "runs exactly the first matching arm or fails; payloads round-trip through the two channels except the empty string; "
             "on the fragment that avoids the recorded defects every transport (declaration, assignment, argument, return), every "
-            "`?` chain of any length and every `return try e` equals the property's own reading (Spec) for all values, step lists "
-            "and link lists; the defects of the pinned code are `_refuted` witnesses (known findings). The model is tied to the "
+            "`?` chain of any length (all five contexts incl. the expression statement) and every `return try e` / `R r = try e;` "
+            "equals the property's own reading (Spec) for all values, step lists and link lists; integer payloads of any size are "
+            "bound unchanged and modulo by zero is classed as division by zero (repairs b144e56, d2267e2, 982c54e, 4ea336a mirrored); the defects of the pinned code are `_refuted` witnesses (known findings). The model is tied to the "
             "code on every run: exhaustive arm orders/wildcards for 1-5 variants, all short transport sequences, all `?` chains of "
             "1-5 links with the failing link at every position and every context, all small core expressions under try/checked, "
             "boundary payloads, plus random deeper cases, are printed as Cb programs and run on the real binary; transcript and "
@@ -41,8 +42,8 @@ META = {
     "note": "Trusted: Coq kernel (vm_compute for the refutation witnesses), no axioms (Print Assumptions: closed); extraction via "
             "ExtrOcamlBasic+ExtrOcamlString; the model is hand-written and tied by differential testing only; the Python printer "
             "of skeletons to Cb text. Not modelled: struct/enum-typed payloads (associated_value), await?, member?, "
-            "`?`/try inside println arguments and call arguments (observed, see notes/C13.md), binding-name reuse across matches "
-            "(recorded as a finding by a fixed program), x.value on a payload-less variant.",
+            "`?` inside println arguments and call arguments and binding-name reuse across matches (both recorded as findings by "
+            "fixed programs), try/checked inside larger expressions, x.value on a payload-less variant.",
 }
 
 RT = "Result<int, RuntimeError>"
